@@ -8,6 +8,7 @@ CONSTANTS
   BugC = "none"
   FixC = "none"
   RemoveC = FALSE
+  GenC = FALSE
 VIEW View
 INVARIANT TypeOK
 INVARIANT NoStuck
